@@ -15,6 +15,11 @@ import os
 
 from common import (BuildError, REPO, ROOT, cxx_build, drv, ensure_repo_built, find_tbb_lib, first_diff, gen_write, log, sh)
 
+def run_limited(cmd, input=None, timeout=None, mem_kb=8000000):
+    """run a harness with an address-space limit: a mutated tree may recurse or allocate without end"""
+    return sh(["bash", "-c", "ulimit -v %d; exec \"$@\"" % mem_kb, "x"] + list(cmd), input=input, timeout=timeout)
+
+
 U64 = 1 << 64
 KINDS = ["simple", "auto", "static", "affinity"]
 H = "harness/c05/"
@@ -241,7 +246,7 @@ def run_pure(ck, lines=None, tag=""):
     if own:
         lines = pure_lines(ck)
     text = "\n".join(lines) + "\n"
-    rc, out, err = sh([exe], input=text, timeout=3600)
+    rc, out, err = run_limited([exe], input=text, timeout=3600)
     impl = out.split("\n")[:-1]
     if rc != 0:
         ck.oblige("corr:split-constructors%s" % tag, "correspondence", False,
@@ -289,7 +294,7 @@ def run_rv(ck):
     keep = [l for l, m in zip(lines, model) if m != "bad-op"]
     text = "\n".join(keep) + "\n"
     model = drv("c05", text, timeout=600)
-    rc, out, err = sh([exe], input=text, timeout=600)
+    rc, out, err = run_limited([exe], input=text, timeout=600)
     impl = out.split("\n")[:-1]
     d = first_diff(impl, model) if rc == 0 else len(impl)
     ok = rc == 0 and d is None
@@ -347,7 +352,7 @@ def probe_nd_tie(ck):
     """blocked_range2d/3d/nd::do_split on inputs whose binary64 products size*double(grain) round to a tie: the real
     constructors must still cut a divisible dimension.  A failure is a concrete violation of the property."""
     exe = cxx_build("C05", "pure", [H + "pure.cpp"], flags=PURE_FLAGS)
-    rc, out, err = sh([exe], input="\n".join(TIE_LINES) + "\n", timeout=60)
+    rc, out, err = run_limited([exe], input="\n".join(TIE_LINES) + "\n", timeout=60)
     impl = out.split("\n")[:-1]
     bad = [(l, o, pure_monitor(l, o)) for l, o in zip(TIE_LINES, impl) if pure_monitor(l, o)]
     if rc != 0:
@@ -491,14 +496,15 @@ def run_mock(ck, scs=None, tag="", report=True):
     own = scs is None
     if own:
         scs = mock_scenarios(ck, 600 if ck.tier == "quick" else 20000)
-    rc, out, err = sh([exe], input="\n".join(scs) + "\n", timeout=3600)
+    rc, out, err = run_limited([exe], input="\n".join(scs) + "\n", timeout=900 if len(scs) < 5000 else 3600)
     res = parse_mock(out)
     fails = []
     if rc != 0 or len(res) != len(scs):
         i = min(len(res), len(scs) - 1)
         if report:
             ck.oblige("monitor:scripted loops%s run to completion" % tag, "correspondence", False, "mock harness rc=%d on scenario %r: %s" % (rc, scs[i], err[-400:]))
-        fails.append((scs[i], "harness crashed or aborted: rc=%d %s" % (rc, err[-300:].strip())))
+        fails.append((scs[i], "the loop never ends (more than 3,000,000 chunks handed to the body or 4,000,000 tasks spawned)" if "RUNAWAY" in out[-300:]
+                      else "harness crashed or aborted: rc=%d %s" % (rc, err[-300:].strip())))
         return fails
     # model replay of every executed task
     tin, where = [], []
@@ -618,20 +624,36 @@ def other_real_lines(ck):
     return lines
 
 
-def run_real(ck):
-    libdir = ensure_repo_built(targets=("tbb",))
-    if not libdir:
-        libdir = find_tbb_lib()
+def real_libdir(ck=None):
+    """libtbb of the tree under test (incremental rebuild); a scratch worktree without a _build directory (header-only
+    changes) is linked against the library of /repo — everything C05 is about lives in headers"""
+    if os.path.isdir(os.path.join(REPO, "_build")):
+        libdir = ensure_repo_built(targets=("tbb",)) or find_tbb_lib()
+    else:
+        libdir = None
+        b = "/repo/_build"
+        for d in sorted(os.listdir(b)) if os.path.isdir(b) else []:
+            if os.path.exists(os.path.join(b, d, "libtbb.so")):
+                libdir = os.path.join(b, d)
+        log("no %s/_build: linking the real-library harness against %s" % (REPO, libdir))
     if not libdir:
         raise BuildError("no built libtbb found under %s/_build" % REPO)
+    if ck is not None:
+        ck.extra["real_library"] = libdir
+    return libdir
+
+
+def run_real(ck):
+    libdir = real_libdir(ck)
     exe = cxx_build("C05", "real", [H + "real.cpp"], flags=["-O1", "-g", "-pthread"], libs=["-L" + libdir, "-ltbb", "-Wl,-rpath," + libdir])
     lines = real_lines(ck)
-    rc, out, err = sh([exe], input="\n".join(lines) + "\n", timeout=3600)
+    rc, out, err = run_limited([exe, "60" if ck.tier == "quick" else "600"], input="\n".join(lines) + "\n", timeout=1800, mem_kb=16000000)
     outs = out.split("\n")[:-1]
     if rc != 0 or len(outs) != 2 * len(lines):
         i = min(len(outs) // 2, len(lines) - 1)
-        ck.oblige("monitor:real-library loops run to completion", "correspondence", False, "rc=%d at %r: %s" % (rc, lines[i], err[-300:]))
-        ck.counterexample("real-loop-crash:" + lines[i].replace(" ", "="), "parallel_for crashed or hung: %s" % lines[i], {"engine": "E-REAL", "harness": H + "real.cpp", "stdin": lines[i] + "\n", "monitor": "real"})
+        how = "does not finish (watchdog)" if "TIMEOUT" in out[-40:] else "never ends (more than 20,000,000 chunks)" if "RUNAWAY" in out[-40:] else "crashed rc=%d %s" % (rc, err[-200:].strip())
+        ck.oblige("monitor:real-library loops run to completion", "correspondence", False, "%r %s" % (lines[i], how))
+        ck.counterexample("real-loop-crash:" + lines[i].replace(" ", "="), "tbb::parallel_for %s: %s" % (how, lines[i]), {"engine": "E-REAL", "harness": H + "real.cpp", "stdin": lines[i] + "\n", "monitor": "real"})
         return
     mon_bad, exact_bad, tree_bad = None, None, None
     mlines, mwhere = [], []
@@ -661,7 +683,7 @@ def run_real(ck):
                     m = "chunk of size %d for grain %d" % (n, g)
         if m and mon_bad is None:
             mon_bad = (l, m)
-        ck.count(1, ("real", kind, fl, k, P, min(len(chunks), 64)))
+        ck.count(1, ("real", kind, fl, k, P, min(len(chunks), 64) if kind in ("simple", "static") else 0))
         flm = "1" if fl == "i" else fl
         if kind in ("simple", "static"):
             mlines.append("loop %s %d %s %d %s" % (kind, P, flm, k, " ".join(map(str, xs))))
@@ -681,7 +703,7 @@ def run_real(ck):
         elif mo != "1" and tree_bad is None:
             tree_bad = (lines[i], mlines[mwhere.index((i, exp, what))][:300])
     ck.extra["real_runs"] = len(lines)
-    ck.sample({"real": lines[1], "monitors": outs[2], "chunks": outs[3][:160]})
+    ck.sample({"real": lines[0], "monitors": outs[0], "chunks": outs[1][:160]})
     ck.oblige("monitor:real library, real threads: each element exactly once, chunks non-empty/inside/disjoint/cover, chunk-size bounds", "correspondence", mon_bad is None, mon_bad or "")
     ck.oblige("corr:simple/static chunk multisets of the real library = model's runLoop (schedule independent)", "correspondence", exact_bad is None, exact_bad or "")
     ck.oblige("corr:auto/affinity chunk boundaries of the real library form a legal split tree of the model", "correspondence", tree_bad is None, tree_bad or "")
@@ -689,7 +711,7 @@ def run_real(ck):
         ck.counterexample("real-loop:" + mon_bad[0].replace(" ", "="), "tbb::parallel_for (%s): %s" % mon_bad, {"engine": "E-REAL", "harness": H + "real.cpp", "stdin": mon_bad[0] + "\n", "monitor": "real"})
     # strided parallel_for, parallel_for_each, parallel_invoke
     ol = other_real_lines(ck)
-    rc, out, err = sh([exe], input="\n".join(ol) + "\n", timeout=1800)
+    rc, out, err = run_limited([exe, "60"], input="\n".join(ol) + "\n", timeout=1800, mem_kb=16000000)
     oo = out.split("\n")[:-1]
     bad = None
     if rc != 0 or len(oo) != len(ol):
@@ -727,7 +749,7 @@ def search(ck, first_fails):
                     lines.append("sn 3 3 0 %d %d 3 %d %d 0 2 1" % (s, g, 3 + s2, 2))
                     lines.append("sn n 3 1 %d 1 0 %d %d 3 %d %d" % (1 + s2, s, g, 3 + s2, 2))
         exe = cxx_build("C05", "pure", [H + "pure.cpp"], flags=PURE_FLAGS)
-        rc, out, err = sh([exe], input="\n".join(lines) + "\n", timeout=600)
+        rc, out, err = run_limited([exe], input="\n".join(lines) + "\n", timeout=600)
         impl = out.split("\n")[:-1]
         if rc != 0 and len(impl) < len(lines):
             found.append(("pure", lines[len(impl)], "harness aborted (sanitizer / assertion): %s" % err[-200:].strip()))
@@ -775,11 +797,15 @@ def run(ck):
         "execute/work_balance/check_being_stolen/check_for_demand/is_divisible/get_split, start_for::execute/offer_work (what is run, what is spawned with which state)",
         "runtime-dependent reads (is_stolen_task, parent ref count >= 2, is_peer_stolen, cancellation) are an arbitrary environment machine; theorems hold for every environment",
         "theorems about proportional splits assume proportions left:right = n-n/2 : n/2 with 2 <= n < 2^24 (i.e. max_concurrency < 2^24) — what get_split produces",
-        "theorems about 2d/3d/nd assume size*grain products < 2^53 (exact binary64); beyond that the dimension choice can pick an indivisible dimension (see report)",
+        "theorems about 2d/3d/nd hold for all sizes and grains because the dimension choice is guarded (an indivisible dimension is never preferred); which rule the "
+        "code has is regenerated by probing the real constructors on binary64 tie inputs (Generated.C05.sel*Guarded) and tied by the E-PURE correspondence; with the "
+        "bare ratio comparison the theorem nd_split_never_cuts_indivisible does not compile and the probe yields the concrete failing input (key nd-split-binary64-tie)",
         "not modelled: which slot a task is mailed to (affinity replay quality), task allocation, the wait tree / reference counting that ends the loop (C01), "
         "exceptions; Value types other than size_t (signed int is covered by E-REAL monitors only); ranges whose proportional constructor is absent",
         "parallel_for_each (iterator blocks, feeder) and parallel_invoke are covered by real-library monitors + spec-level theorems only, not by a code-level model",
-        "termination of the model functions is by fuel; theorems are stated for every fuel that suffices, and sufficiency is proved for simple_partitioner on blocked_range"]
+        "termination of the model functions is by fuel; theorems are stated for every fuel that suffices; sufficiency (fuel = size+2) is proved for simple_partitioner on "
+        "blocked_range, for the other partitioners it is observed on every replayed task (the driver uses fuel 10^8)",
+        "the range_vector ring is tied to the code by its own E-PURE correspondence and to the list used by the task model by the refinement theorems rangevec_tiles/rangevec_refines"]
     ck.trusted += ["harness/c05/r1_mock.h (scripted mock of the r1 entry points; cross-checked by E-REAL monitors)", "harness/c05/{consts,pure,mock,real}.cpp",
                    "lean/Driver/C05.lean (line protocol, legal-split-tree test)", "checks/c05.py (monitors, closure check)", "correspondence is sampled, not proved"]
     gen(ck)
@@ -801,11 +827,11 @@ def replay(ck, obj):
     mon = r.get("monitor")
     name = os.path.basename(r["harness"])[:-4]
     if name == "real":
-        libdir = ensure_repo_built(targets=("tbb",)) or find_tbb_lib()
+        libdir = real_libdir()
         exe = cxx_build("C05", "real", [H + "real.cpp"], flags=["-O1", "-g", "-pthread"], libs=["-L" + libdir, "-ltbb", "-Wl,-rpath," + libdir])
     else:
         exe = cxx_build("C05", name, [r["harness"]], flags=PURE_FLAGS if name == "pure" else MOCK_FLAGS)
-    rc, out, err = sh([exe], input=r["stdin"], timeout=600)
+    rc, out, err = run_limited([exe], input=r["stdin"], timeout=600, mem_kb=24000000)
     print("replay of %s: rc=%d\n%s%s" % (obj.get("key"), rc, out[:2000], err[-500:]))
     lines = r["stdin"].strip().split("\n")
     still = None
